@@ -153,7 +153,7 @@ end
 
 section
 variable {R : Type} [Add R] [Sub R] [Mul R] [Neg R] [Zero R] [One R] [Div R] [Consts R]
-  [LE R] [DecidableLE R] [HasSqrt R] [RegConsts R]
+  [LT R] [DecidableLT R] [HasSqrt R]
 
 /-- An accepted program can always be executed: `Sym::finish` completes whenever the outcome
 stream has one entry per `measure` / `reset` separator of the block queue (each block draws
